@@ -5,13 +5,15 @@ is compared with the same call on a freshly created algebra and the operands are
 after.  The observable cache state of the real code after each history (sequence of code-generation
 events, generated function names with their '_' suffixes) is compared inside Coq with
 Model/Cache.v run on the same history (`deps` and type numbers observed from outside).  Threads:
-barrier-forced "both past the membership test" interleavings plus free-running stress."""
+barrier-forced "both past the membership test" interleavings with a slow wrapper (other threads run while a
+function is being wrapped) plus free-running stress."""
 import warnings, threading, copy
 import kv, algs, opcorr as oc
 import instr
 
 RULE = ('histories of 6-14 calls over {gp, op, ip, add, sub, neg, reverse, hodge, sw, proj, normsq, inv, div, polarity} and '
-        '4 registered functions (one nested), key patterns drawn from a small pool and their permutations, algebras with '
+        '4 registered functions (one nested), key patterns drawn from a small pool and their permutations, immediate repetitions of a call, '
+        'divisions by null blades (failing during code generation), algebras with '
         'wrapper None / set, raising calls interleaved; 2-4 threads for the schedule part.  One case = one call compared with a '
         'fresh algebra.  Non-trivial = the call follows at least one call with a permuted or colliding key pattern; '
         'distinct = distinct (history prefix, call).')
@@ -64,10 +66,13 @@ def same(a, b):
 
 class Session:
     """one algebra object with its registered functions"""
-    def __init__(self, spec, wrapper):
+    def __init__(self, spec, wrapper, slow=False):
         opts = {}
         if wrapper:
             def wrap(f):
+                if slow:                 # a wrapper that takes time (a JIT): other threads run meanwhile
+                    import time
+                    time.sleep(0.02)
                 def g(*a): return f(*a)
                 g.__name__ = f.__name__
                 return g
@@ -102,8 +107,16 @@ def gen_history(rng, alg, n):
     for _ in range(3):
         ks = rng.sample(canon, min(len(canon), rng.randint(1, 3)))
         pool.append(tuple(ks))
+    # blades built from null generators only: dividing by them fails at code-generation time
+    nullbits = [i for i, s in enumerate(alg.signature) if s == 0]
+    nullkeys = [k for k in canon if k and all((k >> i) & 1 == 0 or i in nullbits for i in range(alg.d))]
     h = []
     for _ in range(n):
+        if h and rng.random() < 0.25:
+            # the same call again (same operator and key patterns, fresh values)
+            name, prev = h[-1]
+            h.append((name, [[(k, float(rng.randint(1, 7))) for k, _ in it] for it in prev]))
+            continue
         name = rng.choice(ALLOPS + ['f_mul', 'f_mix', 'f_rev', 'f_nest'] * 2)
         ar = 2 if name in OPS2 or name in ('f_mul', 'f_mix', 'f_nest') else 1
         operands = []
@@ -113,9 +126,19 @@ def gen_history(rng, alg, n):
                 rng.shuffle(ks)
             vals = [float(rng.randint(1, 7)) for _ in ks]
             if name in ('inv', 'div') and rng.random() < 0.15:
-                vals = [0.0 for _ in ks]           # a raising call (ZeroDivisionError)
+                vals = [0.0 for _ in ks]           # a raising call (ZeroDivisionError at call time)
             operands.append(list(zip(ks, vals)))
+        if name in ('inv', 'div') and nullkeys and rng.random() < 0.5:
+            nk = rng.choice(nullkeys)              # a call that raises while its code is generated
+            operands[-1] = [(nk, float(rng.randint(1, 7)))]
         h.append((name, operands))
+    if nullkeys and rng.random() < 0.7:
+        # a call whose code generation fails, after a successful call of the same operator, and then repeated
+        x = [(k, float(rng.randint(1, 7))) for k in rng.choice(pool)]
+        okd = [(rng.choice([k for k in canon if k not in nullkeys] or canon), 2.0)]
+        bad = [(rng.choice(nullkeys), 2.0)]
+        at = rng.randint(0, len(h))
+        h[at:at] = [('div', [x, okd]), ('div', [x, bad]), ('div', [x, bad])]
     return h
 
 
@@ -182,7 +205,7 @@ def run(R, tier):
     rng = R.rng
     cases = []
     R.broken = getattr(R, 'broken', [])
-    n_hist = 14 if tier == 'quick' else 300
+    n_hist = 36 if tier == 'quick' else 400
     for hi in range(n_hist):
         d = rng.choice((2, 2, 3))
         sig = [rng.choice((1, 1, -1, 0)) for _ in range(d)]
@@ -231,8 +254,11 @@ def run(R, tier):
                 R.count('history-with-failed-generation (not model-compared)')
                 continue
             compare_with_model(R, f'C09_{hi}', S2.alg, S2.regs, wrapper, top, probe2, algs.describe(spec))
+    # ---- one thread held inside code generation while another makes the same call ----
+    for ti in range(6 if tier == 'quick' else 60):
+        held_codegen(R, rng, ti, tier)
     # ---- threads ----
-    n_thr = 6 if tier == 'quick' else 80
+    n_thr = 8 if tier == 'quick' else 80
     for ti in range(n_thr):
         d = 2
         spec = {'sig': [rng.choice((1, -1, 0)) for _ in range(d)]}
@@ -240,7 +266,7 @@ def run(R, tier):
         forced = ti % 2 == 0
         probe = instr.Probe(barrier=threading.Barrier(nthreads) if forced else None)
         with probe.active():
-            S = Session(spec, True)
+            S = Session(spec, True, slow=forced)
             canon = list(S.alg.canon2bin.values())
             base = rng.sample(canon, 2)
             hs = []
@@ -270,6 +296,44 @@ def run(R, tier):
                     R.violation({'clause': 'threads', 'via': 'wrapper'},
                                 {'algebra': spec, 'threads': [[[c[0], c[1]] for c in h] for h in hs], 'thread': i, 'call': [call[0], call[1]], 'got': str(out), 'fresh': str(ref)},
                                 f'thread {i} call {call[0]} with {nthreads} threads ({"barrier-forced" if forced else "free"}) returned {out}, a fresh algebra returns {ref}')
+
+
+def held_codegen(R, rng, ti, tier):
+    """One thread is kept inside the code generation of a key pattern (by the probe, from outside) while
+    this thread makes the same call; both must return what a fresh algebra returns."""
+    spec = {'sig': [rng.choice((1, -1, 0)) for _ in range(2)] + [1]}
+    probe = instr.Probe()
+    name = rng.choice(['gp', 'op', 'add', 'sub', 'f_mul', 'f_mix', 'cp'])
+    with probe.active():
+        S = Session(spec, rng.random() < 0.5)
+        canon = list(S.alg.canon2bin.values())
+        base = rng.sample(canon, 2)
+        other = rng.sample(canon, 2)
+        def operands(ks):
+            return [list(zip(ks, [float(rng.randint(1, 7)) for _ in ks])), list(zip(other, [float(rng.randint(1, 7)) for _ in other]))]
+        warm = (name, operands(base))
+        call = (name, operands(base[::-1]))
+        S.do(warm)
+        probe.hold = {'armed': True, 'entered': threading.Event(), 'release': threading.Event()}
+        res = {}
+        th = threading.Thread(target=lambda: res.setdefault('thread', S.do(call)))
+        th.start()
+        entered = probe.hold['entered'].wait(timeout=10)
+        res['main'] = S.do(call)
+        probe.hold['release'].set()
+        th.join()
+        probe.hold = None
+        res['later'] = S.do(call)
+    ref, _ = Session(spec, False).do(call)
+    for who in ('main', 'thread', 'later'):
+        out, unchanged = res[who]
+        R.count('threads=held-in-codegen'); R.case(('held', ti, who), True)
+        ok = (out[0] == ref[0]) and (same(out[1], ref[1]) if out[0] == 'ok' else out[1] == ref[1])
+        if not ok or not unchanged:
+            R.violation({'clause': 'threads', 'via': 'held-in-codegen'},
+                        {'algebra': spec, 'held': True, 'warm': [warm[0], warm[1]], 'call': [call[0], call[1]], 'who': who, 'got': str(out), 'fresh': str(ref)},
+                        f'{name} with keys {[[k for k, _ in it] for it in call[1]]} called while another thread was generating code for that pattern '
+                        f'(after a call with keys {[[k for k, _ in it] for it in warm[1]]}): {who} got {out}, a fresh algebra returns {ref}')
 
 
 def replay(R, rec):
